@@ -1,11 +1,12 @@
 (* C06  Channel state is durable and prefix-consistent across crashes.  Statements only.
    A schedule is a list of labels of the go-statemachine model (Machine.v: sends, the run loop
    planning an event, the cleanup handler finishing); every applied event announces and then
-   writes the resulting record.  The byte-level codec is not modelled: that the stored bytes
-   decode to the written record (vouchers equal as DAG-CBOR data) is checked on every record of
-   every crash image by the crash suite. *)
+   writes the resulting record.  The byte-level codec of the record (cbor-gen map encoding with
+   embedded DAG-CBOR vouchers) is StateCodec.v; the last theorems say that what is written is read
+   back as the same record, vouchers equal as DAG-CBOR data. *)
 From Coq Require Import List NArith ZArith String Bool.
 From DT Require Import GenStatus GenEvent FsmTypes GenFsm Fsm Machine FsmFacts MachineFacts C17Proofs C09Proofs C06Proofs.
+From DT Require Cbor StateCodec StateCodecProofs.
 Import ListNotations.
 
 (* at every write boundary n of every schedule, the record on disk is the record obtained by
@@ -42,3 +43,21 @@ Theorem C06_restart_finishes_cleanup :
       count is_cleanup_out o = 1 /\ count is_unprotect_out o = 1.
 Proof. exact restart_finishes_cleanup. Qed.
 Print Assumptions C06_restart_finishes_cleanup.
+
+(* the stored bytes: a record the encoder accepts, with every number in its Go range (unsigned
+   64-bit counters, signed 64-bit block totals and time stamps, IPLD payloads with 64-bit
+   arguments), is read back with all 24 fields, the stage log, and every voucher and result in
+   order with its type identifier; vouchers, results and the selector are equal as DAG-CBOR data
+   (canonical map-key order) *)
+Theorem C06_record_round_trip :
+  forall s, StateCodec.encodable s = true -> StateCodec.wf_state s ->
+    exists b, StateCodec.st_encode s = Some b /\ StateCodec.st_decode b = Some (StateCodec.canon_state s).
+Proof. exact StateCodecProofs.record_round_trip. Qed.
+Print Assumptions C06_record_round_trip.
+
+(* nothing else is ever written: the encoder refuses exactly the records outside its limits
+   (undefined base CID, a text field above 8192 bytes, a log above 8192 entries) *)
+Theorem C06_record_refused_iff :
+  forall s, StateCodec.st_encode s = None <-> StateCodec.encodable s = false.
+Proof. exact StateCodecProofs.record_refused_iff. Qed.
+Print Assumptions C06_record_refused_iff.
